@@ -18,7 +18,9 @@ THEORIES = ['theories/L5Cover/BoxesProofs.vo',
             'theories/L5Cover/MinCoverFull.vo',
             'theories/L5Cover/CoverEnumLemmas.vo',
             'theories/L5Cover/CoverEnumStep.vo',
-            'theories/L5Cover/CoverEnumExact.vo']
+            'theories/L5Cover/CoverEnumExact.vo',
+            'theories/L5Cover/MinCoverTotal.vo',
+            'theories/L5Cover/CoverEnumRefutedTotal.vo']
 
 HEADER = cq.HEADER + ('From Omega Require Import L5Cover.MinCover '
                       'L5Cover.CoverEnum L5Cover.CoverEnumOld.\n')
